@@ -1565,3 +1565,90 @@ def rule_lk4(ctx):
         r.note("LK4", loc(f, f.node), "__setitem__",
                "no item store of the value's data into a data slot "
                "(not judged)")
+
+
+RAW1_TABLE = [
+    # (module, function, array-like parameter): entry points that C12 names
+    # ("Point / Transformation constructors ... nested lists or ndarrays")
+    ("geometry_tools/projective.py", "Transformation.__init__", "proj_data"),
+    ("geometry_tools/projective.py", "affine_linear_map", "linear_map"),
+    ("geometry_tools/projective.py", "affine_translation", "translation"),
+    ("geometry_tools/projective.py", "ProjectiveObject.set", "proj_data"),
+]
+NDARRAY_ATTRS = {"shape", "swapaxes", "T", "dtype", "astype", "reshape",
+                 "ndim", "conj", "conjugate", "transpose", "real", "imag",
+                 "copy", "flatten", "squeeze", "size"}
+
+
+def rule_raw1(ctx):
+    r = ctx.r
+    r.rule("RAW1", "an entry point that accepts its matrix / coordinates "
+                   "'as nested lists or ndarrays' converts the argument "
+                   "(np.array / np.asarray / utils.array_like) BEFORE it "
+                   "uses an ndarray attribute or method on it "
+                   "(`.swapaxes`, `.shape`, `.dtype`, slicing with a "
+                   "tuple): Transformation(M, column_vectors=True) with M a "
+                   "nested list raised AttributeError where the row-vector "
+                   "form and the same numbers as an ndarray work")
+    for rel, qn, param in RAW1_TABLE:
+        try:
+            f = ctx.p.get_function(rel, qn)
+        except Exception:
+            raise AnalysisError(f"RAW1: anchor {qn} has vanished")
+        r.analysed(f)
+        if param not in f.params:
+            r.note("RAW1", loc(f, f.node), qn,
+                   f"parameter `{param}` is gone (not judged)")
+            continue
+        # positions where the parameter is rebound to a converted array
+        conv = [s for s in ast.walk(f.node) if isinstance(s, ast.Assign)
+                and any(isinstance(t, ast.Name) and t.id == param
+                        for t in s.targets)
+                and any(isinstance(c, ast.Call) and dotted(c.func) in (
+                    "np.array", "np.asarray", "np.asanyarray",
+                    "utils.array_like", "array_like", "np.atleast_2d",
+                    "np.atleast_1d") for c in ast.walk(s.value))]
+        first_conv = min((s.lineno for s in conv), default=None)
+        bad = None
+        uses = 0
+        for x in ast.walk(f.node):
+            raw_use = None
+            if isinstance(x, ast.Attribute) and isinstance(x.value, ast.Name) \
+                    and x.value.id == param and x.attr in NDARRAY_ATTRS:
+                raw_use = x
+            if isinstance(x, ast.Subscript) and isinstance(x.value, ast.Name) \
+                    and x.value.id == param and isinstance(
+                        x.slice, ast.Tuple):
+                raw_use = x           # a[i, j] / a[:k, :k]: ndarray indexing
+            if raw_use is None:
+                continue
+            uses += 1
+            if first_conv is None or raw_use.lineno < first_conv:
+                # inside `try: ... except AttributeError` the failure is
+                # handled (the package's own duck-typing idiom)
+                par = f.module.parents.get(raw_use)
+                handled = False
+                while par is not None and par is not f.node:
+                    if isinstance(par, ast.Try) and any(
+                            h.type is None or "AttributeError" in dotted(
+                                h.type) or "Exception" == dotted(h.type)
+                            for h in par.handlers) \
+                            and any(raw_use in ast.walk(b)
+                                    for b in par.body):
+                        handled = True
+                    par = f.module.parents.get(par)
+                if not handled:
+                    bad = bad or raw_use
+        inst = f"{qn}:{param}"
+        if bad is None:
+            r.ok("RAW1", inst, loc(f, f.node), "",
+                 f"`{param}` is converted before any ndarray attribute is "
+                 f"used ({uses} uses)")
+        else:
+            r.violation(
+                "RAW1", f"{f.fq}|{param}", loc(f, bad), dotted(bad)[:80],
+                f"`{dotted(bad)[:50]}` is applied to the raw argument "
+                f"`{param}`: a nested list (the packaging the docstring "
+                "examples use for the row-vector form) has no such "
+                "attribute -> AttributeError / TypeError, while the same "
+                "numbers as an ndarray are accepted", instance=inst)
